@@ -234,8 +234,8 @@ fn sweeps(rep: &Report) {
             let name = m.prepare_send_name().unwrap();
             let comp = m.prepare_complement().unwrap();
             let okc = m.handle_challenge(&hs_challenge(theirs, 5, 1, b"p@h")).is_ok();
-            let lo_ok = matches!(read_hs_from_initiator(&name[2..]), Ok(HsMsg::NameV5 { flags_lo, .. }) if flags_lo == ours as u32);
-            let hi_ok = matches!(read_hs_from_initiator(&comp[2..]), Ok(HsMsg::Complement { flags_hi, .. }) if flags_hi == (ours >> 32) as u32);
+            let lo_ok = matches!(read_hs_from_initiator(name.get(2..).unwrap_or(&[])), Ok(HsMsg::NameV5 { flags_lo, .. }) if flags_lo == ours as u32);
+            let hi_ok = matches!(read_hs_from_initiator(comp.get(2..).unwrap_or(&[])), Ok(HsMsg::Complement { flags_hi, .. }) if flags_hi == (ours >> 32) as u32);
             if !okc || m.negotiated_flags().map(|f| f.as_u64()) != Some(ours & theirs) || !lo_ok || !hi_ok {
                 rep.violation("flag handling wrong for a flag pattern", json!({"ours": format!("{:#x}", ours), "theirs": format!("{:#x}", theirs), "negotiated": format!("{:?}", m.negotiated_flags()), "name_low_ok": lo_ok, "complement_high_ok": hi_ok}));
             }
@@ -251,7 +251,7 @@ fn sweeps(rep: &Report) {
             m.prepare_send_name().unwrap();
             m.handle_challenge(&hs_challenge(u64::MAX, their, 1, b"p@h")).unwrap();
             let reply = m.prepare_challenge_reply().unwrap();
-            match read_hs_from_initiator(&reply[2..]) {
+            match read_hs_from_initiator(reply.get(2..).unwrap_or(&[])) {
                 Ok(HsMsg::Reply { challenge, digest }) => {
                     if digest != dist_digest(ck, their) { rep.violation("reply digest differs from MD5(cookie ++ decimal(challenge))", json!({"cookie_len": ck.len(), "their_challenge": their})); }
                     // wrong cookie must fail, right one must pass
@@ -272,7 +272,7 @@ fn sweeps(rep: &Report) {
             m.prepare_send_name().unwrap();
             m.handle_challenge(&hs_challenge(u64::MAX, their, 1, b"p@h")).unwrap();
             let reply = m.prepare_challenge_reply().unwrap();
-            let Ok(HsMsg::Reply { challenge, .. }) = read_hs_from_initiator(&reply[2..]) else { continue };
+            let Ok(HsMsg::Reply { challenge, .. }) = read_hs_from_initiator(reply.get(2..).unwrap_or(&[])) else { continue };
             let mut d = dist_digest(ck, challenge);
             d[bit / 8] ^= 1 << (bit % 8);
             let ok = m.handle_challenge_ack(&hs_ack(&d)).is_ok();
@@ -297,7 +297,7 @@ fn sweeps(rep: &Report) {
                         let ok = fr.len() == 1 && rest.is_empty() && matches!(read_hs_from_initiator(&fr[0]), Ok(HsMsg::NameV5 { name: n, version: 5, .. }) if n == name.as_bytes());
                         if !ok { rep.violation("name message layout wrong", json!({"name_bytes": name.len(), "kind": label, "bytes": hex(&b)})); }
                         let c = m.prepare_complement().unwrap();
-                        if !matches!(read_hs_from_initiator(&c[2..]), Ok(HsMsg::Complement { creation: cr, .. }) if cr == creation) { rep.violation("complement carries a different creation", json!({"creation": creation})); }
+                        if !matches!(read_hs_from_initiator(c.get(2..).unwrap_or(&[])), Ok(HsMsg::Complement { creation: cr, .. }) if cr == creation) { rep.violation("complement carries a different creation", json!({"creation": creation})); }
                     }
                     Err(_) => if fits { rep.violation("valid node name rejected", json!({"bytes": name.len(), "kind": label})); },
                 }
